@@ -13,7 +13,7 @@ LEVEL_NOTE = "Limits: block length 2^31-1, block offset 2^32-1, CLM offset+lengt
 
 def queries(tier):
     qs = []
-    for nm in ((1, 2) if tier == "quick" else (1, 2, 3)):
+    for nm in (1, 2, 3):
         qs.append(Query("vol_prepare_%dmembers" % nm, "C20_limits.cpp", "h_vol_prepare", {"NM": nm}, unwind=40, vfs_n=4, vfs_cap=16, timeout=900,
                         desc="VolFile::PrepareHeader for %d member(s) of free 64-bit sizes: refused iff a size exceeds 2^31-1 or a block offset exceeds 2^32-1, otherwise sizes and offsets equal the reference layout; no file touched" % nm))
     for nm, big in (("2p31", "0x80000000ull"), ("2p32m1", "0xFFFFFFFFull"), ("2p32", "0x100000000ull")):
